@@ -235,7 +235,10 @@ Lemma variant_gen_scoped a tg raf v x : src_variant n v = true ->
 Proof.
   intros Hs. apply andb_true_iff in Hs as [Hsh Has]. unfold variant_gen.
   intros H. apply bind_ok in H as (vt & Hvt & H). apply bind_ok in H as (parsed & Hparsed & H).
-  apply shape_gen_scoped in Hvt; [|exact Hsh]. destruct Hvt as [Hvt1 Hvt2].
+  assert (Hvt1 : incl (ftv (fst vt)) V).
+  { apply variant_shape_cases in Hvt as [Hvt|(_ & Hn & _)].
+    - apply shape_gen_scoped in Hvt; [|exact Hsh]. destruct Hvt as [Hvt1 _]. exact Hvt1.
+    - rewrite Hn. apply incl_nil_l. }
   assert (Hp : incl (ftv parsed) V).
   { destruct (v_as v) as [u|].
     - eapply incl_tran; [eapply name_of_scoped; exact Hparsed | eapply rdummies_rsubst; exact Has].
